@@ -48,3 +48,10 @@ def lemma_flatten_roundtrip(start, ends):
     flat = RecomputingDict._flatten((start, ends))
     back = RecomputingDict._unflatten(flat)
     return back[0] == start and back[1] == ends and len(flat) == len(ends) + 1
+
+
+def lemma_sum_pointwise(a, b):
+    # requires len(a) == len(b), forall i: a[i] == b[i];  ensures sum(a) == sum(b)
+    if len(a) == 0:
+        return
+    lemma_sum_pointwise(a[1:], b[1:])
